@@ -21,7 +21,8 @@ RULE = ("the real fallback plugin (fallback.Init over scripted primary/secondary
 ASSUMPTIONS = [
     "Go channel semantics as modelled: buffered FIFO channel, close is seen by every receiver, select takes any ready case",
     "the primary and secondary executables return (they run under a deadline context); their outcome is a parameter",
-    "time.Timer fires no earlier than its duration (the 60 s threshold does not fire during a case)",
+    "time.Timer fires no earlier than its duration (the 60 s threshold does not fire during a case); a timer from pkg/pool behaves like a fresh timer",
+    "merging a goroutine-local step (Exec returning, reading alwaysStandby / r) with the following shared statement loses no interleaving",
 ]
 TRUSTED_BASE = [
     "hand-written model coq/Model/Fallback.v tied to plugin/executable/sequence/fallback/fallback.go doFallback by "
